@@ -158,9 +158,10 @@ func IntervalCheck(ops []*Op) []Violation {
 			// must not contain: a removal completed before the search began (ids are added at most once)
 			for _, rm := range removes[id] {
 				if rm.OK && ret(rm) < s.Call {
+					// an add that had not completed before this removal began may take effect after it
 					readded := false
 					for _, a := range adds[id] {
-						if a.Call > rm.Call {
+						if ret(a) > rm.Call {
 							readded = true
 						}
 					}
